@@ -10,6 +10,7 @@ import (
 	"regexp"
 	"sort"
 	"strings"
+	"sync"
 	"syscall"
 	"time"
 
@@ -396,10 +397,22 @@ func buildGcsemulator() (string, error) {
 type emuProc struct {
 	cmd  *osexec.Cmd
 	base string
+	done chan struct{} // closed when the child has exited
 }
 
+var emuStartMu sync.Mutex // one start-up at a time, so two cases cannot probe the same free port
+
+// startEmuProc starts the real gcsemulator binary on dir. It makes sure that the process answering on the chosen
+// port is OUR child serving OUR directory (the port is probed free first, but another process may still win it):
+// the child must be alive and must serve a marker bucket that exists only in dir.
 func startEmuProc(bin, dir string) (*emuProc, error) {
-	for attempt := 0; attempt < 5; attempt++ {
+	emuStartMu.Lock()
+	defer emuStartMu.Unlock()
+	marker := fmt.Sprintf("verif-marker-%d", common.Hash64(dir)%1000000)
+	if err := os.MkdirAll(filepath.Join(dir, marker), 0o777); err != nil {
+		return nil, err
+	}
+	for attempt := 0; attempt < 8; attempt++ {
 		l, err := net.Listen("tcp", "127.0.0.1:0")
 		if err != nil {
 			return nil, err
@@ -411,24 +424,50 @@ func startEmuProc(bin, dir string) (*emuProc, error) {
 		if err := cmd.Start(); err != nil {
 			return nil, err
 		}
-		base := fmt.Sprintf("http://127.0.0.1:%d", port)
-		for w := 0; w < 200; w++ { // start-up wait only, never a verdict
-			c, err := net.DialTimeout("tcp", fmt.Sprintf("127.0.0.1:%d", port), time.Second)
-			if err == nil {
-				c.Close()
-				return &emuProc{cmd, base}, nil
+		p := &emuProc{cmd: cmd, base: fmt.Sprintf("http://127.0.0.1:%d", port), done: make(chan struct{})}
+		go func() { _, _ = cmd.Process.Wait(); close(p.done) }()
+		ok := false
+		for w := 0; w < 300 && !ok; w++ { // start-up wait only, never a verdict
+			select {
+			case <-p.done:
+				w = 300 // our child exited (lost the port): try another port
+				continue
+			default:
+			}
+			cl := drive.NewClient(p.base)
+			r := cl.GetBucket(marker)
+			cl.Close()
+			if r.Err == "" && r.Status == 200 {
+				ok = true
+				break
 			}
 			time.Sleep(10 * time.Millisecond)
 		}
-		_ = cmd.Process.Kill()
-		_, _ = cmd.Process.Wait()
+		select {
+		case <-p.done:
+			ok = false
+		default:
+		}
+		if ok {
+			return p, nil
+		}
+		p.kill()
 	}
-	return nil, fmt.Errorf("gcsemulator did not come up")
+	return nil, fmt.Errorf("gcsemulator did not come up on a port of its own")
 }
 
 func (p *emuProc) kill() {
 	_ = p.cmd.Process.Signal(syscall.SIGKILL)
-	_, _ = p.cmd.Process.Wait()
+	<-p.done
+}
+
+func (p *emuProc) exited() bool {
+	select {
+	case <-p.done:
+		return true
+	default:
+		return false
+	}
 }
 
 func c09Kill(run *common.Run, idx int, bin string) {
@@ -490,6 +529,9 @@ func c09Kill(run *common.Run, idx int, bin string) {
 			kills++
 			d := e.cl.Dump(e.namesToDump(), nil)
 			if msg := e.diff(d); msg != "" {
+				if p.exited() {
+					msg += " (the restarted gcsemulator process exited by itself)"
+				}
 				fail("after SIGKILL and restart: " + msg)
 				return
 			}
